@@ -113,7 +113,7 @@ def sigText : Sig → String
 def sigTextFull (st : St) : Sig → String
   | .err e none => s!"ERR {hexEnc (strBytes e.type)} {e.line} {e.pos} R"
   | .err e (some (d, v)) => s!"ERR {hexEnc (strBytes e.type)} {e.line} {e.pos} D {hexEnc d} {canonVal st canonDepth v}"
-  | .ret e v => s!"ERR {hexEnc (strBytes e.type)} {e.line} {e.pos} V {canonVal st canonDepth v}"
+  | .ret e _ => s!"ERR {hexEnc (strBytes e.type)} {e.line} {e.pos} V"
   | .iter e _ => s!"ERR {hexEnc (strBytes e.type)} {e.line} {e.pos} R"
   | s => sigText s
 
